@@ -500,12 +500,17 @@ func check(sp storeSpec, built [][]builtMetric, got []sample, scrapeErr error) [
 
 // ---------------------------------------------------------------- generator
 
-var namePool = []string{"foo", "bar-baz", "a-b-c", "x_y", "lines_total", "m1", "resp-time", "UPPER", "ns:sub", "q"}
-var badNames = []string{"9lives", "has space", "dot.ted", "", "caf\xc3\xa9", "bad\xff"}
-var keyPool = []string{"a", "b", "code", "host", "k_1", "le_", "prog"}
-var badKeys = []string{"my-key", "0x", "", "__res", "sp ace"}
-var valPool = []string{"", "x", "200", "ok1", "ok2", "a b", "q\"uote", "back\\slash", "new\nline", "caf\xc3\xa9", "bad\xff", "\xc3", "-", "a-b", "{}", "="}
-var progPool = []string{"p.mtail", "q.mtail", "dir-x.mtail", ""}
+var namePool = []string{"foo", "bar-baz", "a-b-c", "x_y", "lines_total", "m1", "resp-time", "UPPER", "ns:sub", "q", "_lead", "__dunder", ":colon", "Z9"}
+var badNames = []string{"9lives", "has space", "dot.ted", "", "caf\xc3\xa9", "bad\xff", "-lead", "a{b", "tab\t", "\x7f", "a@b", "[x]", "`q"}
+var keyPool = []string{"a", "b", "code", "host", "k_1", "le_", "prog", "_ok", "A9", "_"}
+var badKeys = []string{"my-key", "0x", "", "__res", "sp ace", "a:b", "__", "caf\xc3\xa9", "k\xff", "z{", "@", "a.b"}
+var valPool = []string{"", "x", "200", "ok1", "ok2", "a b", "q\"uote", "back\\slash", "new\nline", "caf\xc3\xa9", "-", "a-b", "{}", "=", "\xf0\x9f\x98\x80", "\xe2\x82\xac"}
+
+// UTF-8 edge cases: invalid byte, truncated, overlong, surrogate, beyond U+10FFFF, and the
+// valid neighbours of each
+var utfPool = []string{"bad\xff", "\xc3", "\xc0\xaf", "\xed\xa0\x80", "\xf4\x90\x80\x80", "\xe2\x82", "\xf4\x8f\xbf\xbf",
+	"\xe0\x9f\x80", "\xe0\xa0\x80", "\xed\x9f\xbf", "\xf0\x8f\x80\x80", "\xf0\x90\x80\x80", "\x80", "ok\xc2", "\xc2\x80", "\xdf\xbf", "\xee\x80\x80"}
+var progPool = []string{"p.mtail", "q.mtail", "dir-x.mtail", "", "p.mtail", "q.mtail", "r", "pr\xffg.mtail"}
 var floatPool = []float64{0, math.Copysign(0, -1), 1, -1, 0.5, -2.75, 1e300, -1e300, 9007199254740993, math.Inf(1), math.Inf(-1), math.NaN(), 5e-324, 3.141592653589793, 1e-7, 123456789.125}
 var intPool = []int64{0, 1, -1, 42, -7, 9007199254740993, -9007199254740993, math.MaxInt64, math.MinInt64, 1 << 53, 1<<62 + 1}
 
@@ -611,6 +616,9 @@ func genStore(r *vlib.Rand) storeSpec {
 				vals := make([]string, nk)
 				for i := range vals {
 					vals[i] = vlib.Pick(r, valPool)
+					if r.Chance(12) {
+						vals[i] = vlib.Pick(r, utfPool)
+					}
 				}
 				k := fmt.Sprintf("%q", vals)
 				if seen[k] {
